@@ -12,7 +12,6 @@ ROOT = os.path.dirname(os.path.dirname(os.path.abspath(__file__)))
 # why a recorded finding was not repaired by a "fix:" commit (the brief: repair only when small and safe)
 WHY = {
     "depth-ge-1024": "the record format has 10 depth bits while the option accepts 65535: a format/option design decision",
-    "pg-rejected-trigger-scope": "making -pg agree with cygprof needs a shadow frame (and an exit hook) for rejected calls on the -pg path: a design change",
     "auto-neg32": "type width of untyped arguments is a documented-format decision (32-bit heuristics in the printer)",
     "autoargs-complex": "needs a new argument class (two SSE registers) in the DWARF -> spec translation",
     "same-dirname-concurrent-clients": "naming policy of `uftrace recv` (one directory per name)",
@@ -23,7 +22,6 @@ WHY = {
     "pthread-exit-nested": "the repair changes the thread destructor protocol; proposed-fixes/C11-*.diff",
     "pthread-exit-destructors": "as pthread-exit-nested",
     "setjmp-beyond-rstack-max": "array sized by a constant while the option is a run-time value: allocation design",
-    "rehook-mixed-chain": "in-process witness only; re-hook of mixed PLT/mcount chains needs a per-entry trampoline",
     "native-symbol-filter": "python and native symbols share one filter namespace in libmcount: a design decision",
     "lost-after-inherited-wrap": "needs a decision what a LOST marker means for frames inherited at fork",
     "threshold-boundary": "record (>) and replay (>=) disagree on the boundary; which one is documented is undecided",
@@ -35,6 +33,12 @@ WHY = {
     "lost-tail-unreported": "the proposed patch (proposed-fixes/C03-1.diff) covers worker threads only; the main thread's tail loss needs the "
                             "shutdown order changed",
     "zero-duration-events-twice": "events are matched to frames by time-stamp equality; needs an explicit frame link in the pending queue",
+    "lost-in-inherited-data": "setting user_stack_count to the inherited depth changes which kernel functions of a child are shown; kernel tracing cannot be exercised in this sandbox",
+    "signal-during-unwinding": "needs the in_exception protocol of the unwinder wrappers reworked; partial patch in proposed-fixes/C11-7-partial.diff",
+    "events-refused-when-args-fill-buffer": "the per-frame buffer is shared by arguments and events by design (fixed 1024 bytes); a repair needs a format/size decision",
+    "pg-drap-realigned-stack": "the mcount stub cannot find the return slot of a DRAP-realigned frame without unwind information",
+    "script-record-float": "libmcount deliberately does not touch FP registers at record time; documented placeholder",
+    "patchable-pre-entry-stripped": "without symbols nothing tells where the entry of a function with pre-entry NOPs is",
     "watch-first-event-1ns": "the +1/-1 ns stamping scheme of watch events is a design decision",
 }
 
